@@ -69,6 +69,10 @@ type Unit struct {
 	axiomsDone bool
 	finalActive map[string]bool
 	shapes  []shapeRec
+	iterOrder []string
+	qctr    int
+	placedInv map[string]bool
+	unfolded map[string]bool
 	mu      sync.Mutex
 }
 
@@ -148,11 +152,14 @@ func posString(prog *ssa.Program, p token.Pos) string {
 }
 
 var srcCache = map[string][]string{}
+var globalMu sync.Mutex
 
 func sourceLine(prog *ssa.Program, p token.Pos) string {
 	if !p.IsValid() {
 		return ""
 	}
+	globalMu.Lock()
+	defer globalMu.Unlock()
 	pp := prog.Fset.Position(p)
 	lines, ok := srcCache[pp.Filename]
 	if !ok {
@@ -442,7 +449,17 @@ func (fr *Frame) cutLoop(li *loopInfo, st *State, pc Term, phiEntry map[*ssa.Phi
 	writeMark := len(u.m.writes)
 	u.discov++
 	sub := fr.cloneForDiscovery()
-	sub.run(li.blocks, li.header, st, pc, phiEntry, true)
+	// loop-carried variables get fresh values in the discovery run, so that a write through a
+	// loop-carried pointer is not mistaken for a write to the entry object only
+	discPhi := map[*ssa.Phi]Value{}
+	for _, ins := range li.header.Instrs {
+		phi, ok := ins.(*ssa.Phi)
+		if !ok {
+			break
+		}
+		discPhi[phi] = u.m.FreshValue(st, "disc_"+phi.Name(), phi.Type())
+	}
+	sub.run(li.blocks, li.header, st, pc, discPhi, true)
 	modHeap := map[string]bool{}
 	modGhost := map[string]bool{}
 	allocChanged := false
@@ -492,6 +509,7 @@ func (fr *Frame) cutLoop(li *loopInfo, st *State, pc Term, phiEntry map[*ssa.Phi
 	// components whose only writes inside the loop hit objects allocated inside the loop keep their
 	// contents on all pre-existing objects (frame)
 	framed := map[string]bool{}
+	frameExcept := map[string]map[string]bool{} // pre-existing objects written in the loop (excluded from the frame)
 	for k := range modHeap {
 		framed[k] = true
 	}
@@ -499,9 +517,25 @@ func (fr *Frame) cutLoop(li *loopInfo, st *State, pc Term, phiEntry map[*ssa.Phi
 		if !framed[w.comp] {
 			continue
 		}
-		if w.base == "" || !u.m.nonNil[w.base] || symIndex(w.base) <= snap.n {
+		if w.base == "" {
 			framed[w.comp] = false
+			continue
 		}
+		if u.m.nonNil[w.base] && symIndex(w.base) > snap.n {
+			continue // object allocated inside the loop
+		}
+		// a base computed before the loop (its defining symbols all predate the snapshot) is loop-invariant
+		if maxSymIndex(w.base) <= snap.n {
+			if frameExcept[w.comp] == nil {
+				frameExcept[w.comp] = map[string]bool{}
+			}
+			frameExcept[w.comp][w.base] = true
+			if len(frameExcept[w.comp]) > 4 {
+				framed[w.comp] = false
+			}
+			continue
+		}
+		framed[w.comp] = false
 	}
 	u.m.writes = u.m.writes[:writeMark]
 	u.discov--
@@ -545,8 +579,17 @@ func (fr *Frame) cutLoop(li *loopInfo, st *State, pc Term, phiEntry map[*ssa.Phi
 		hvRefs = append(hvRefs, k)
 		if framed[k] && strings.HasPrefix(string(modSorts[k]), "(Array Int ") {
 			oldc := u.m.comp(st, k, modSorts[k])
-			u.c.Raw(fmt.Sprintf("(assert (forall ((r Int)) (! (=> (< r %s) (= (select %s r) (select %s r))) :pattern ((select %s r)))))",
-				st.alloc.S, nst.heap[k].S, oldc.S, nst.heap[k].S))
+			guard := fmt.Sprintf("(< r %s)", st.alloc.S)
+			var ex []string
+			for b := range frameExcept[k] {
+				ex = append(ex, b)
+			}
+			sort.Strings(ex)
+			for _, b := range ex {
+				guard = fmt.Sprintf("(and %s (not (= r %s)))", guard, b)
+			}
+			u.c.Raw(fmt.Sprintf("(assert (forall ((r Int)) (! (=> %s (= (select %s r) (select %s r))) :pattern ((select %s r)))))",
+				guard, nst.heap[k].S, oldc.S, nst.heap[k].S))
 		}
 	}
 	hk = hk[:0]
@@ -752,11 +795,13 @@ func (u *Unit) constValue(c *ssa.Const) Value {
 // globalPtr: a package-level variable is an object with a fixed id per global.
 func (u *Unit) globalPtr(g *ssa.Global) Value {
 	name := "glob_" + g.String()
+	globalMu.Lock()
 	id, ok := u.eng.globalIDs[g]
 	if !ok {
 		id = int64(len(u.eng.globalIDs) + 1)
 		u.eng.globalIDs[g] = id
 	}
+	globalMu.Unlock()
 	_ = name
 	elem := g.Type().(*types.Pointer).Elem()
 	// globals live at ids 1..K (below every allocation: alloc0 > K is assumed at unit start)
@@ -782,4 +827,23 @@ func symIndex(s string) int {
 		n = n*10 + int(c-'0')
 	}
 	return n
+}
+
+// maxSymIndex is the largest generated-symbol index occurring in a term.
+func maxSymIndex(s string) int {
+	max := 0
+	for i := 0; i < len(s); i++ {
+		if s[i] == '!' {
+			n := 0
+			j := i + 1
+			for j < len(s) && s[j] >= '0' && s[j] <= '9' {
+				n = n*10 + int(s[j]-'0')
+				j++
+			}
+			if n > max {
+				max = n
+			}
+		}
+	}
+	return max
 }
